@@ -88,15 +88,17 @@ def run_unit(unit, strict=True, rlimit=None, tag="", text_override=None, threads
     if text_override is not None or pinned is not None:
         return r
     extras = []; degrade = set()
-    for attempt in range(3):
+    for attempt in range(5):
         if r.status != "tool" or r.built is None:
             return r
         missing = _missing_items(r.stderr)
         new = [m for m in missing if m not in extras]
-        if not new and (not r.built.changed or degrade >= r.built.changed):
+        if new:
+            extras += new            # items the changed code newly refers to: extract them, keep every annotation
+        elif r.built.changed and not (degrade >= r.built.changed):
+            degrade |= set(r.built.changed)     # last resort: the proof script of the changed functions no longer compiles
+        else:
             return r
-        extras += new
-        degrade |= set(r.built.changed)
         r2 = _run_once(unit, strict, rlimit, tag + "-retry%d" % (attempt + 1), text_override, threads, extra_args, pid, tuple(degrade), tuple(extras))
         r2.degraded = sorted(degrade); r2.auto_extracted = ["%s%s" % ((t + "::") if t else "", n) for t, n in extras]
         r2.first_attempt_errors = r.tool_errors[:5]
@@ -105,8 +107,10 @@ def run_unit(unit, strict=True, rlimit=None, tag="", text_override=None, threads
 
 def _missing_items(stderr):
     out = []
-    for m in re.finditer(r"cannot find (?:function|value|type|struct, variant or union type|trait|function, tuple struct or tuple variant) `(\w+)` in this scope", stderr):
-        if (None, m.group(1)) not in out: out.append((None, m.group(1)))
+    for m in re.finditer(r"cannot find (function|value|type|struct, variant or union type|trait|function, tuple struct or tuple variant) `(\w+)` in this scope", stderr):
+        # a lower-case *value* is a local variable that an annotation still mentions, not an item of the crate
+        if m.group(1) == "value" and not re.match(r"^[A-Z][A-Z0-9_]*$", m.group(2)): continue
+        if (None, m.group(2)) not in out: out.append((None, m.group(2)))
     for m in re.finditer(r"no (?:method|function or associated item) named `(\w+)` found for (?:struct|enum|reference|mutable reference) `&?(?:mut )?(\w+)", stderr):
         if (m.group(2), m.group(1)) not in out: out.append((m.group(2), m.group(1)))
     return out
